@@ -168,6 +168,26 @@ class History:
         return out
 
     # ------------------------------------------------------------- server
+    def server_send(self, ptype, ns, pid, data):
+        """Server -> client packet.  A payload without byte strings is
+        sometimes sent as the binary twin of the packet type with zero
+        attachments ("50-[...]": what Packet(..., binary=True) encodes to,
+        and what peers that label every packet of a binary-capable event as
+        binary send; msgpack: type 5 / 6, attachments never exist there)."""
+        h = self.h
+        if not R.has_bytes(data) and self.rng.random() < 0.12:
+            btype = R.BINARY_EVENT if ptype == R.EVENT else R.BINARY_ACK
+            if self.serializer == 'msgpack':
+                frame = R.msgpack_encode(btype, ns, pid, data)
+            else:
+                text = R.encode(ptype, ns, pid, data)[0]
+                frame = '%d0-%s' % (btype, text[1:])
+            self.ctx.count('binary_typed_without_attachments')
+            h.feed(frame)
+            h.pump()
+        else:
+            h.server_send(ptype, ns, pid, data)
+
     def do_server_event(self):
         rng, ctx, h = self.rng, self.ctx, self.h
         self.tok += 1
@@ -183,7 +203,7 @@ class History:
         op = ['server_event', ns, ev, args, pid]
         self.ops.append(op)
         ev0 = len(self.events)
-        h.server_send(R.EVENT, ns, pid, [ev] + args)
+        self.server_send(R.EVENT, ns, pid, [ev] + args)
         errs = h.all_errors()
         extra = {'op': op, 'after_id0_ack': ns in self.id0}
         if errs:
@@ -307,7 +327,7 @@ class History:
                  'after_id0_ack': ns in self.id0}
         if aid == 0 and ns in self.out:
             self.id0.add(ns)
-        h.server_send(R.ACK, ns, aid, args)
+        self.server_send(R.ACK, ns, aid, args)
         errs = h.all_errors()
         if errs:
             extra['id0_symptom'] = True
@@ -648,6 +668,7 @@ def run(ctx):
     # two threads emitting with callbacks at the same time (handlers run in
     # a thread each): distinct ids, each callback once with its own ACK
     from checks import ackid_sched
+    ctx.require('binary_typed_without_attachments', 20)
     ctx.require('ack_id_race_schedules', 30)
     ackid_sched.run_part(ctx, 'client', (ctx.budget or 30) * 0.12)
     k = 0
